@@ -74,3 +74,33 @@ def cfgOf (d : DFA Nat) (s : Nat) : Cfg :=
   if (emptyStates d).contains s then .term (d.st s).accepting else .st (newIdx d s)
 
 end Lexgen
+
+namespace Lexgen
+
+/-! ## Static checks -/
+
+/-- the macro rejects the definition (panic or `syn` error at expansion time) -/
+def Rejected {α : Type} (x : Except CompileError α) : Prop := ∃ e, x = .error e
+
+/-- the regex mentions a variable that is not bound in `b` (directly; bound variables are
+followed by `inlineVars`) -/
+def MentionsVar (n : String) : Regex → Prop
+  | .var m => m = n
+  | .star r | .plus r | .opt r => MentionsVar n r
+  | .cat a b | .alt a b | .diff a b => MentionsVar n a ∨ MentionsVar n b
+  | _ => False
+
+/-- the regex mentions a built-in name -/
+def MentionsBuiltin (n : String) : Regex → Prop
+  | .builtin m => m = n
+  | .star r | .plus r | .opt r => MentionsBuiltin n r
+  | .cat a b | .alt a b | .diff a b => MentionsBuiltin n a ∨ MentionsBuiltin n b
+  | _ => False
+
+/-- `e` is (syntactically) a class expression: what `#` accepts as an operand -/
+def IsClassExpr : Regex → Prop
+  | .chr _ | .set _ | .any | .builtin _ => True
+  | .alt a b | .diff a b => IsClassExpr a ∧ IsClassExpr b
+  | _ => False
+
+end Lexgen
